@@ -34,6 +34,12 @@ def run_check(mod, tier, seed, replay=None):
         traceback.print_exc()
         t = dict(evaluations=0, distinct_nontrivial=0, rule="tie did not run", samples=[], distribution={},
                  mismatches=[], infra=str(e)[:2000])
+    try:
+        os.makedirs(lib.BUILD, exist_ok=True)
+        with open(os.path.join(lib.BUILD, "last_mismatches_%s.json" % prop), "w") as fh:
+            json.dump([dict(kind=m["kind"], known=m.get("known"), what=m["what"]) for m in t["mismatches"]], fh, indent=1, default=str)
+    except OSError:
+        pass
     findings = {e["key"]: e for e in lib.known_findings(prop)}
     violations = []
     known_hit = {}
